@@ -381,4 +381,31 @@ theorem parseTop_str_slice (cfg : Cfg) (tgt : Tgt) (bs : Bytes) (h : validUtf8 b
     parseTop (envStr cfg tgt) bs = parseTop (envSlice cfg tgt) bs :=
   run_str_slice cfg tgt bs init 0 (uinv_init bs h)
 
+/-! ## the invariant along a run, and what it says at a closing quote -/
+
+theorem feed_uinv (env : Env) (pre : Bytes) : ∀ (s : St) (i : Nat) (rest : Bytes) (s' : St) (j : Nat),
+    UInv s (pre ++ rest) → feed env s i pre = .ok (s', j) → UInv s' rest := by
+  induction pre with
+  | nil => intro s i rest s' j h hf; simp only [feed, Except.ok.injEq, Prod.mk.injEq] at hf; exact hf.1 ▸ h
+  | cons b pre ih =>
+    intro s i rest s' j h hf
+    simp only [feed] at hf
+    cases hs : step env s b with
+    | ok s1 => rw [hs] at hf; exact ih s1 (i + 1) rest s' j (step_uinv env s b _ s1 h hs) hf
+    | error e => obtain ⟨c, a⟩ := e; rw [hs] at hf; cases hf
+
+/-- on valid UTF-8 input, whenever the machine stands at the closing quote of a string literal (a
+    value or a key, in a document that may still be rejected later), the decoded text — the bytes
+    handed to `str::from_utf8_unchecked` by the `&str` source — is valid UTF-8 -/
+theorem utf8_at_closing_quote (env : Env) (pre rest : Bytes) (h : validUtf8 (pre ++ 0x22 :: rest) = true)
+    (s : St) (j : Nat) (hf : feed env init 0 pre = .ok (s, j)) (st : StrSt) (hm : s.mode = .str st)
+    (he : st.esc = .none) : validUtf8 st.out.reverse = true := by
+  have hu := feed_uinv env pre init 0 (0x22 :: rest) s j (uinv_init _ h) hf
+  unfold UInv at hu
+  rw [hm] at hu
+  obtain ⟨out, esc, isKey, escaped⟩ := st
+  simp only at he; subst he
+  simp only at hu
+  exact (validUtf8_ascii_split (a := out.reverse) quote_ascii (by simpa using hu)).1
+
 end SJ.Proofs.Utf8
